@@ -43,4 +43,5 @@ Inv ==
   /\ CachedWasSaved(c0)
   /\ StackDistinct
   /\ StoredValuesPortable
+  /\ \A k \in Keys : SaveRule(k) = SaveRuleCounted(k)
 =============================================================================
